@@ -104,9 +104,13 @@ func vsReplayEdgeCover(run *core.Run, prop string, crash bool) {
 	cfg := vsCfg(2, 1, "abcde", true, true, true, true, true, vsGenTail)
 	res, st := vsGenerateAndReplayCfg(run, cfg, nil, func(b *vsBehaviour, n int64, scratch string) {
 		conc := vsConcs[int((n+run.Seed)%int64(len(vsConcs)))]
+		if last := b.Steps[len(b.Steps)-1]; !run.Thorough() && last.A == "Commit" && last.R != "ok" && (n+run.Seed)%4 != 0 {
+			run.Count("quick_tier_skipped_behaviours_ending_in_a_refused_commit(4 of 5 of all transitions are such; every 4th kept)", 1)
+			return
+		}
 		for _, kind := range []string{"ldb", "mem"} {
 			if kind == "mem" {
-				skip := false
+				skip := !run.Thorough() && (n+run.Seed)%3 != 0 // quick tier: the in-memory manager on a third of the behaviours
 				for _, s := range b.Steps {
 					if s.A == "Restart" {
 						skip = true
@@ -127,7 +131,7 @@ func vsReplayEdgeCover(run *core.Run, prop string, crash bool) {
 			_ = steps
 		}
 		// tall concretisation (views far behind the frontier: second-level cache) on a seeded sample
-		tallEvery := int64(12)
+		tallEvery := int64(20)
 		if run.Thorough() {
 			tallEvery = 2
 		}
